@@ -11,7 +11,7 @@ def check(ctx):
         "commits; R4 one Reporter::report call per cycle, outside loops, fed by the single records vector; R5 the "
         "future/stream/sink adapters release the local-parent guard before finishing their span (C13-R3/C14-R3); R6 the "
         "receiver drain loops until try_recv reports an empty (or closed) channel, forwarding every command; R7 the "
-        "per-item fan-out of a shared span set leaves only by exhaustion.")
+        "per-item fan-out of a shared span set leaves only by exhaustion; R8 Config::cancelable(x) sets cancelable to x.")
     ctx.not_decided = ("inclusion of a child that finished on another thread before the root: receivers are drained "
                        "one after another, so the child's submit can be read one cycle after the root's commit "
                        "(limitation L1 of DESIGN.md; no code shape distinguishes the schedules).")
